@@ -11,6 +11,9 @@ ops:
   reset <myNet>                     -> `ok`
   cfgload <cfg>                     -> `ok tbl=<dump>` | `fatal`                  (NewLightHouseFromConfig)
   cfgreload <cfg>                   -> `<changed|unchanged|err> tbl=<dump>` | `nolh`  (ReloadConfigString)
+  cfgreloadx <cfg>                  the same reload, but the file also has an invalid lighthouse.remote_allow_list:
+                                    LightHouse.reload returns before the calculated_remotes block
+                                    -> `earlier-err tbl=<dump>` | `nolh`
   probe <addr>                      -> as `add`, on the table in force | `nolh`
   (<cfg>, <dump>: see Driver/CalcRemoteCfg.lean and harness/calcremote/reload_test.go)
 -/
@@ -23,7 +26,7 @@ import Nebula.Driver.CalcRemoteCfg
 namespace Nebula.Driver.CalcRemote
 open Nebula.Driver Nebula.CalcRemote Nebula.Net
 open Nebula.Spec.CalcRemote (splice Entry cfgValid inForce1)
-open Nebula.Driver.CalcRemoteCfg (St parseCfg dumpTable dumpSpec specCfg derivable answerRemotes)
+open Nebula.Driver.CalcRemoteCfg (St parseCfg dumpTable dumpSpec specCfg derivable answerRemotes knownClass)
 
 def errStr : NewErr → String
   | .family => "err:family"
@@ -128,8 +131,19 @@ def cfgOps (s : St) (args : List String) (impl : String) : Option (St × Out) :=
       let force' := inForce1 none (.load c)
       let model := match m' with | none => "fatal" | some st => "ok tbl=" ++ dumpTable st.tbl
       let want := match force' with | none => "fatal" | some f => "ok tbl=" ++ dumpSpec f
-      some ({ s with model := m', force := force' },
+      some ({ s with model := m', force := force', poisoned := false },
         { model := model, verdict := expect "reload-table-mismatch" impl want, tag := "load:" ++ cfgTag c })
+  | "cfgreloadx" :: toks =>
+    match parseCfg toks with
+    | none => some (s, badOp)
+    | some c =>
+      let (m', _) := cfgRun1 s.model (.reloadEarlierErr c)
+      let force' := inForce1 s.force (.reloadEarlierErr c)
+      let model := match m' with | some st => "earlier-err tbl=" ++ dumpTable st.tbl | none => "nolh"
+      let want := match force' with | some f => "earlier-err tbl=" ++ dumpSpec f | none => "nolh"
+      some ({ s with model := m', force := force', poisoned := m'.isSome },
+        { model := model, verdict := knownClass s.poisoned model impl (expect "reload-table-mismatch" impl want),
+          tag := if m'.isNone then "triv:reloadx:nolh" else "reloadx:" ++ cfgTag c })
   | "cfgreload" :: toks =>
     match parseCfg toks with
     | none => some (s, badOp)
@@ -153,10 +167,11 @@ def cfgOps (s : St) (args : List String) (impl : String) : Option (St × Out) :=
               (if status == "err" || status == "unchanged" then "ok" else s!"bad reload-status invalid-config-answered-{status}")
           | _ => s!"bad reload-table-mismatch want-tbl={dumpSpec f}"
       let same := match s.model with | some st => st.prev == c | none => false
-      some ({ s with model := m', force := force' },
-        { model := model, verdict := verdict,
+      let stored := match o with | some .stored => true | _ => false
+      some ({ s with model := m', force := force', poisoned := s.poisoned && !stored },
+        { model := model, verdict := knownClass s.poisoned model impl verdict,
           tag := if s.model.isNone then "triv:reload:nolh" else
-            "reload:" ++ (if same then "same:" else "") ++ cfgTag c })
+            "reload:" ++ (if s.poisoned then "after-failed:" else "") ++ (if same then "same:" else "") ++ cfgTag c })
   | ["probe", addr] =>
     match parseAddr addr with
     | none => some (s, badOp)
@@ -175,7 +190,7 @@ def cfgOps (s : St) (args : List String) (impl : String) : Option (St × Out) :=
         let tag := match lpm (specCfg f) a with
           | none => if (specCfg f).isEmpty then "probe:unconfigured" else "probe:outside"
           | some _ => if want.endsWith "v4=- v6=-" then "probe:inside-nothing" else "probe:inside"
-        some (s, { model := model, verdict := verdict, tag := tag })
+        some (s, { model := model, verdict := knownClass s.poisoned model impl verdict, tag := tag })
       | _, _ => some (s, { model := "nolh", verdict := expect "reload-table-mismatch" impl "nolh", tag := "triv:probe:nolh" })
   | _ => none
 
